@@ -49,10 +49,10 @@ def genMap (s : LL) (f : MArg) : Except Err LL :=
           if ((h0 != (PyLen.len new0))) then
             .error .value
           else
-            let new1 := (LL.setCallables new0 (List.map (fun it0 => let p0 := it0; let onef0 := p0.1; let x0 := p0.2; (LThunk.app onef0 x0)) (PyIter.iter (List.zip f.fns new0.callables))))
+            let new1 := (LL.setCallables new0 (List.map (fun it0 => let p0 := it0; let onef0 := p0.1; let x0 := p0.2; (LThunk.app (ToFnId.fid onef0) x0)) (PyIter.iter (List.zip (PyIter.iter f) (PyIter.iter new0.callables)))))
             (.ok new1)
       else
-        let new1 := (LL.setCallables new0 (List.map (fun it0 => let x0 := it0; (LThunk.app f.fn x0)) (PyIter.iter new0.callables)))
+        let new1 := (LL.setCallables new0 (List.map (fun it0 => let x0 := it0; (LThunk.app (ToFnId.fid f) x0)) (PyIter.iter new0.callables)))
         (.ok new1)
 
 def genRepeat (s : LL) (n : Int) : LL :=
@@ -132,16 +132,10 @@ def genImportGlob (w : GlobWorld) (pat : Unit) (known : List Nat) (max : Option 
                     else
                       (.ok (ToGlobRes.ret lazylist1))
                   else
-                    if verbose then
-                      if asGen then
-                        (.ok (ToGlobRes.ret (GlobRes.gen (List.map (fun it0 => let a0 := it0; a0) (PyIter.iter lazylist0)))))
-                      else
-                        (.ok (ToGlobRes.ret lazylist0))
+                    if asGen then
+                      (.ok (ToGlobRes.ret (GlobRes.gen (List.map (fun it0 => let a0 := it0; a0) (PyIter.iter lazylist0)))))
                     else
-                      if asGen then
-                        (.ok (ToGlobRes.ret (GlobRes.gen (List.map (fun it0 => let a0 := it0; a0) (PyIter.iter lazylist0)))))
-                      else
-                        (.ok (ToGlobRes.ret lazylist0))
+                      (.ok (ToGlobRes.ret lazylist0))
             else
               let nfiles0 := (PyLen.len filepaths1)
               if ((nfiles0 == (0))) then
@@ -155,16 +149,10 @@ def genImportGlob (w : GlobWorld) (pat : Unit) (known : List Nat) (max : Option 
                     else
                       (.ok (ToGlobRes.ret lazylist1))
                   else
-                    if verbose then
-                      if asGen then
-                        (.ok (ToGlobRes.ret (GlobRes.gen (List.map (fun it0 => let a0 := it0; a0) (PyIter.iter lazylist0)))))
-                      else
-                        (.ok (ToGlobRes.ret lazylist0))
+                    if asGen then
+                      (.ok (ToGlobRes.ret (GlobRes.gen (List.map (fun it0 => let a0 := it0; a0) (PyIter.iter lazylist0)))))
                     else
-                      if asGen then
-                        (.ok (ToGlobRes.ret (GlobRes.gen (List.map (fun it0 => let a0 := it0; a0) (PyIter.iter lazylist0)))))
-                      else
-                        (.ok (ToGlobRes.ret lazylist0))
+                      (.ok (ToGlobRes.ret lazylist0))
       else
         if (Py.truthyOptInt max) then
           let filepaths0 := (Py.sliceTo filepaths1 max)
@@ -180,16 +168,10 @@ def genImportGlob (w : GlobWorld) (pat : Unit) (known : List Nat) (max : Option 
                 else
                   (.ok (ToGlobRes.ret lazylist1))
               else
-                if verbose then
-                  if asGen then
-                    (.ok (ToGlobRes.ret (GlobRes.gen (List.map (fun it0 => let a0 := it0; a0) (PyIter.iter lazylist0)))))
-                  else
-                    (.ok (ToGlobRes.ret lazylist0))
+                if asGen then
+                  (.ok (ToGlobRes.ret (GlobRes.gen (List.map (fun it0 => let a0 := it0; a0) (PyIter.iter lazylist0)))))
                 else
-                  if asGen then
-                    (.ok (ToGlobRes.ret (GlobRes.gen (List.map (fun it0 => let a0 := it0; a0) (PyIter.iter lazylist0)))))
-                  else
-                    (.ok (ToGlobRes.ret lazylist0))
+                  (.ok (ToGlobRes.ret lazylist0))
         else
           let nfiles0 := (PyLen.len filepaths1)
           if ((nfiles0 == (0))) then
@@ -203,16 +185,10 @@ def genImportGlob (w : GlobWorld) (pat : Unit) (known : List Nat) (max : Option 
                 else
                   (.ok (ToGlobRes.ret lazylist1))
               else
-                if verbose then
-                  if asGen then
-                    (.ok (ToGlobRes.ret (GlobRes.gen (List.map (fun it0 => let a0 := it0; a0) (PyIter.iter lazylist0)))))
-                  else
-                    (.ok (ToGlobRes.ret lazylist0))
+                if asGen then
+                  (.ok (ToGlobRes.ret (GlobRes.gen (List.map (fun it0 => let a0 := it0; a0) (PyIter.iter lazylist0)))))
                 else
-                  if asGen then
-                    (.ok (ToGlobRes.ret (GlobRes.gen (List.map (fun it0 => let a0 := it0; a0) (PyIter.iter lazylist0)))))
-                  else
-                    (.ok (ToGlobRes.ret lazylist0))
+                  (.ok (ToGlobRes.ret lazylist0))
     else
       if (!(max).isNone) then
         ((Py.optLe max (0))).bind fun h0 =>
@@ -233,16 +209,10 @@ def genImportGlob (w : GlobWorld) (pat : Unit) (known : List Nat) (max : Option 
                     else
                       (.ok (ToGlobRes.ret lazylist1))
                   else
-                    if verbose then
-                      if asGen then
-                        (.ok (ToGlobRes.ret (GlobRes.gen (List.map (fun it0 => let a0 := it0; a0) (PyIter.iter lazylist0)))))
-                      else
-                        (.ok (ToGlobRes.ret lazylist0))
+                    if asGen then
+                      (.ok (ToGlobRes.ret (GlobRes.gen (List.map (fun it0 => let a0 := it0; a0) (PyIter.iter lazylist0)))))
                     else
-                      if asGen then
-                        (.ok (ToGlobRes.ret (GlobRes.gen (List.map (fun it0 => let a0 := it0; a0) (PyIter.iter lazylist0)))))
-                      else
-                        (.ok (ToGlobRes.ret lazylist0))
+                      (.ok (ToGlobRes.ret lazylist0))
             else
               let nfiles0 := (PyLen.len filepaths0)
               if ((nfiles0 == (0))) then
@@ -256,16 +226,10 @@ def genImportGlob (w : GlobWorld) (pat : Unit) (known : List Nat) (max : Option 
                     else
                       (.ok (ToGlobRes.ret lazylist1))
                   else
-                    if verbose then
-                      if asGen then
-                        (.ok (ToGlobRes.ret (GlobRes.gen (List.map (fun it0 => let a0 := it0; a0) (PyIter.iter lazylist0)))))
-                      else
-                        (.ok (ToGlobRes.ret lazylist0))
+                    if asGen then
+                      (.ok (ToGlobRes.ret (GlobRes.gen (List.map (fun it0 => let a0 := it0; a0) (PyIter.iter lazylist0)))))
                     else
-                      if asGen then
-                        (.ok (ToGlobRes.ret (GlobRes.gen (List.map (fun it0 => let a0 := it0; a0) (PyIter.iter lazylist0)))))
-                      else
-                        (.ok (ToGlobRes.ret lazylist0))
+                      (.ok (ToGlobRes.ret lazylist0))
       else
         if (Py.truthyOptInt max) then
           let filepaths1 := (Py.sliceTo filepaths0 max)
@@ -281,16 +245,10 @@ def genImportGlob (w : GlobWorld) (pat : Unit) (known : List Nat) (max : Option 
                 else
                   (.ok (ToGlobRes.ret lazylist1))
               else
-                if verbose then
-                  if asGen then
-                    (.ok (ToGlobRes.ret (GlobRes.gen (List.map (fun it0 => let a0 := it0; a0) (PyIter.iter lazylist0)))))
-                  else
-                    (.ok (ToGlobRes.ret lazylist0))
+                if asGen then
+                  (.ok (ToGlobRes.ret (GlobRes.gen (List.map (fun it0 => let a0 := it0; a0) (PyIter.iter lazylist0)))))
                 else
-                  if asGen then
-                    (.ok (ToGlobRes.ret (GlobRes.gen (List.map (fun it0 => let a0 := it0; a0) (PyIter.iter lazylist0)))))
-                  else
-                    (.ok (ToGlobRes.ret lazylist0))
+                  (.ok (ToGlobRes.ret lazylist0))
         else
           let nfiles0 := (PyLen.len filepaths0)
           if ((nfiles0 == (0))) then
@@ -304,16 +262,10 @@ def genImportGlob (w : GlobWorld) (pat : Unit) (known : List Nat) (max : Option 
                 else
                   (.ok (ToGlobRes.ret lazylist1))
               else
-                if verbose then
-                  if asGen then
-                    (.ok (ToGlobRes.ret (GlobRes.gen (List.map (fun it0 => let a0 := it0; a0) (PyIter.iter lazylist0)))))
-                  else
-                    (.ok (ToGlobRes.ret lazylist0))
+                if asGen then
+                  (.ok (ToGlobRes.ret (GlobRes.gen (List.map (fun it0 => let a0 := it0; a0) (PyIter.iter lazylist0)))))
                 else
-                  if asGen then
-                    (.ok (ToGlobRes.ret (GlobRes.gen (List.map (fun it0 => let a0 := it0; a0) (PyIter.iter lazylist0)))))
-                  else
-                    (.ok (ToGlobRes.ret lazylist0))
+                  (.ok (ToGlobRes.ret lazylist0))
 
 def genImport (w : ImportWorld) (f : FileEnt) (known : List Nat) (r : Option Nat) (lmx att asset kw : Option Unit) :
     Except Err Built :=
